@@ -20,7 +20,8 @@ import (
 
 func init() {
 	register(&Check{
-		ID: "C05", Level: "exploration", Configs: []string{"clean"},
+		ID:      "C05",
+		Tenants: func(c *core.Ctx, i int) tenant { return tenantPacket(c, "ext") }, Level: "exploration", Configs: []string{"clean"},
 		Run:         runC05,
 		QuickRuns:   3_000_000,
 		ThoroughSec: 480,
